@@ -58,12 +58,12 @@ PROP_SENT = {
     "C10": ["at_clamp", "at_clamp_adjust"],
     "C11": ["at_backup"],
     "C05": ["conv_strided", "conv_morton", "conv_hilbert"],
-    "C19": ["nd_map"],
+    "C19": ["nd_map", "nd_map_equations"],
     "C17": None,      # filled below: get_configuration and the parameter-pack constructor of every layer
 }
 from harness import cxx2sent as _cs
 PROP_SENT["C17"] = list(_cs.CFG_KEYS)
-SENT = tuple(sorted({k for v in PROP_SENT.values() for k in v}))
+SENT = tuple(sorted({k for v in PROP_SENT.values() if v for k in v if k != "nd_map_equations"}))
 
 
 def sentence_obligations(ctx, prop, corr):
@@ -83,6 +83,9 @@ def _translate(k):
     if k == "static_permutation":
         from harness import cxx2tmpl
         return cxx2tmpl.translate(str(C.REPO)), {"scalars": [], "arrays": []}
+    if k == "nd_map_equations":
+        from harness import cxx2tmpl
+        return cxx2tmpl.translate_ndmap(str(C.REPO)), {"scalars": [], "arrays": []}
     if k in ("context", "morton_pdep"):
         from harness import cxx2ctx
         return cxx2ctx.translate(str(C.REPO), k), {"scalars": [], "arrays": []}
@@ -110,6 +113,8 @@ def _where(k):
         return cxx2sent.SENTENCES[k][0] + " " + k + " (model clause: " + cxx2sent.SENTENCES[k][3] + ")"
     if k == "static_permutation":
         return "utility/static_permutation.hpp: every template specialisation"
+    if k == "nd_map_equations":
+        return "utility/nd_map.hpp: tail, cat and the three branches of nd_map"
     if k == "context":
         return "array.hpp / algebra/matrix.hpp / algebra/vector.hpp / utility/nd_size.hpp element accessors"
     if k == "morton_pdep":
